@@ -59,6 +59,8 @@ def _span_and_labels(cfg):
         return arr, labs
     if kind == 'range':
         return range(2000, 2000 + L), list(range(2000, 2000 + L))
+    if kind == 'range_step':   # a stepped range: labels are not start + position
+        return range(2000, 2000 + 5 * L, 5), list(range(2000, 2000 + 5 * L, 5))
     if kind == 'nd_int':
         return np.arange(2000, 2000 + L), list(range(2000, 2000 + L))
     if kind == 'list_str':
@@ -118,6 +120,10 @@ def _model(cfg, span, cells, scripts, dtype):
         for j, v in enumerate(vals):
             arr[j] = v
     m.attach(Script(cfg['N'], cfg['B']), scripts)
+    if cfg.get('presolved'):
+        # a model that has been solved before: later periods must keep these marks when an earlier period fails
+        m.status[:] = '.'
+        m.iterations[:] = 7
     return m
 
 
@@ -252,7 +258,7 @@ def explore5(cfg: dict) -> dict:
     for tc in range(L):
         for p in range(1, B + 1):
             if isinstance(sc[tc].kind[p], SInt):
-                ctx.assume(z3.And(sc[tc].kind[p].t >= 0, sc[tc].kind[p].t <= 2), 'fault kind in {none,warn,raise}')
+                ctx.assume(z3.And(sc[tc].kind[p].t >= 0, sc[tc].kind[p].t <= 3), 'fault kind in {none,warn,raise,raise SolutionError}')
                 ctx.assume(z3.And(sc[tc].fs[p].t >= 0, sc[tc].fs[p].t <= max(N, 1) - 1), 'fault statement in range')
     ctx.assume(z3.And(z3.Int('min_iter') >= 0, z3.Int('min_iter') <= B + 1), '0 <= min_iter <= max_iter+1')
     _, labs0 = _span_and_labels(cfg)
@@ -456,7 +462,7 @@ def replay5(cfg: dict, inp: dict) -> dict:
 def configs(tier: str):
     out = []
     Ls = (1, 2, 3) if tier == 'quick' else (1, 2, 3, 4, 5)
-    for span in ('list_sym', 'range', 'nd_obj_sym', 'nd_int', 'list_str'):
+    for span in ('list_sym', 'range', 'nd_obj_sym', 'nd_int', 'list_str', 'range_step'):
         for L in Ls:
             for (start, end) in (('none', 'none'), ('sym', 'sym'), ('sym', 'none'), ('none', 'sym')):
                 if span == 'list_str':
@@ -478,6 +484,12 @@ def configs(tier: str):
                             out.append(cfg5(span=span, L=L, start=s_, end=e_, errors=errors, failures=failures, B=B,
                                             faults=(L <= 2 and B == 1),
                                             distinct=(span == 'nd_obj_sym' and 'sym' in (s_, e_))))
+    # models solved before (statuses / iteration counts already set): containment must leave later periods as they were
+    for span in ('range', 'list_sym'):
+        for L in (2, 3):
+            for errors, failures in (('raise', 'raise'), ('ignore', 'raise'), ('skip', 'ignore')):
+                out.append(cfg5(span=span, L=L, errors=errors, failures=failures, presolved=True, faults=True))
+                out.append(cfg5(span=span, L=L, start='sym', end='sym', errors=errors, failures=failures, presolved=True))
     # tracer-extended models: solve(trace=True) == the sequence of solve_t(trace=True), traces included
     for span in ('range', 'list_sym'):
         for L in (2, 3):
@@ -501,13 +513,18 @@ def configs(tier: str):
             out.append(cfg5(span=span, L=3, offset=off, lags=1 if off < 0 else 0, leads=1 if off > 0 else 0,
                             errors='raise', failures='raise', distinct=True))
     # solve_period
-    for span in ('list_sym', 'range', 'nd_obj_sym', 'nd_int'):
+    for span in ('list_sym', 'range', 'nd_obj_sym', 'nd_int', 'range_step'):
         for L in (1, 2, 3):
             for errors in ('raise', 'skip'):
                 out.append(cfg5(span=span, L=L, entry='solve_period', start='sym', errors=errors, faults=True,
                                 distinct=(span == 'nd_obj_sym')))
     for lab in STR_LABELS[:3] + ['zz']:
         out.append(cfg5(span='list_str', L=3, entry='solve_period', start=lab))
+    for span, labs in (('range', [1999, 2000, 2001, 2002, 2003]), ('range_step', [1995, 2000, 2003, 2005, 2010, 2015]), ('nd_int', [1999, 2000, 2002, 2003])):
+        for lab in labs:
+            out.append(cfg5(span=span, L=3, entry='solve_period', start=lab))
+            out.append(cfg5(span=span, L=3, entry='solve', start=lab, end='none', errors='ignore', failures='ignore'))
+            out.append(cfg5(span=span, L=3, entry='solve', start='none', end=lab, errors='ignore', failures='ignore'))
     return out
 
 
